@@ -84,7 +84,8 @@ void enum_cleanup()
                         prev = prev->GetPrevNcNnlNpp();
                      }
 
-                     if (prev->Is(CT_COMMA))                   // Issue #3604
+                     if (  prev->Is(CT_COMMA)                  // Issue #3604
+                        || prev->Is(CT_BRACE_OPEN))            // nothing but directives between the braces
                      {
                         // nothing to do
                      }
